@@ -14,6 +14,13 @@ thread_local! {
 }
 
 static COMPILED_MASK: std::sync::atomic::AtomicU8 = std::sync::atomic::AtomicU8::new(0);
+/// 0 = honour each step's own preference; 1..3 = answer every dispatch with this backend (policy
+/// "always serial / always AVX2 / always IFMA" of the cross-configuration check)
+static FORCE_DISPATCH: std::sync::atomic::AtomicU8 = std::sync::atomic::AtomicU8::new(0);
+
+pub fn set_force_dispatch(v: u8) {
+    FORCE_DISPATCH.store(v, std::sync::atomic::Ordering::Relaxed);
+}
 
 pub fn set_dispatch(pref: u8) {
     DISPATCH_PREF.with(|c| c.set(pref));
@@ -42,7 +49,8 @@ fn cpu_has(backend: u8) -> bool {
 #[no_mangle]
 pub extern "Rust" fn curve25519_dalek_verif_pick_backend(compiled: u8) -> u8 {
     COMPILED_MASK.store(compiled, std::sync::atomic::Ordering::Relaxed);
-    let pref = DISPATCH_PREF.with(|c| c.get());
+    let forced = FORCE_DISPATCH.load(std::sync::atomic::Ordering::Relaxed);
+    let pref = if forced != 0 { forced } else { DISPATCH_PREF.with(|c| c.get()) };
     let ok = pref != 0 && (compiled >> (pref - 1)) & 1 == 1 && cpu_has(pref);
     let ans = if ok { pref } else { 0 };
     DISPATCH_COUNTS.with(|c| {
